@@ -381,6 +381,7 @@ impl Cli {
 }
 
 //@@ include lemmas/pipeline_theory.rs
+//@@ include lemmas/sort_theory.rs
 
 // what Process::start guarantees about the started chain `s` of an assembled chain `q`
 pub open spec fn started_from(q: Box<dyn Process>, s: Box<dyn Process>) -> bool {
